@@ -106,6 +106,17 @@ def ord15(P, R, L):
                     "the WAL directory, the table directory and the files of the root directory are removed while the lock is still held",
                     "the FileLock is released at line(s) %s before this removal" % early if early else "lock released only after the data is gone")
         R.check("ORD-15", DESTROY + "|lock-release-sites", bool(drops), K.where(d), "the lock taken by destroy_database is released explicitly or at scope end", "%d release sites" % len(drops))
+        # the LOCK file itself is unlinked while the lock on it is still held: an open that gets in between a release and the
+        # unlink locks the inode that is about to lose its name, and the next open creates (and locks) a fresh LOCK file -
+        # two owners (defect D20)
+        lock_rm = [r for r in rms if r.declared_name == FS + "remove_file" and not in_cycle(d, r.bb) and r.args and len(r.args) >= 2 and
+                   any(x.kind == "call" and x.name.endswith("::get_lock_file_path") for x in origins(d, r.args[1]))]
+        for r in lock_rm:
+            early = [ln for (bb, tg, ln) in drops if r.bb in d.reachable(tg)]
+            R.check("ORD-15", DESTROY + "|lock-file-unlinked-while-locked", not early, r.where(),
+                    "destroy_database removes the LOCK file before it releases the lock it holds on it",
+                    "the FileLock is released at line(s) %s before the LOCK file is unlinked" % early if early else "lock released only after the unlink")
+        R.floor("ORD-15", "removal of the LOCK file in destroy_database", len(lock_rm), 1)
 
 
 def own6(P, R, L):
